@@ -89,4 +89,11 @@ def record_provenance(tables, command=None, start_time=None, **kwargs):
     tskit provenances schema.
     """
     record = get_provenance_dict(command=command, start_time=start_time, **kwargs)
-    tables.provenances.add_row(record=json.dumps(record))
+    tables.provenances.add_row(record=json.dumps(record, default=_json_default))
+
+
+def _json_default(obj):
+    # parameter values may be numpy scalars or arrays, which json cannot encode
+    if hasattr(obj, "tolist"):
+        return obj.tolist()
+    raise TypeError(f"Object of type {type(obj).__name__} is not JSON serializable")
